@@ -12,6 +12,7 @@ TRUSTED_BASE = [
 COMPONENTS = {
     "xxh": dict(builds=["implrun"], timeout=900),
     "cmp": dict(builds=["implrun"], timeout=1500),
+    "hdr": dict(builds=["implrun"], timeout=1500),
     "ws": dict(builds=["implrun"], timeout=1500),
     "rs": dict(builds=["implrun"], timeout=1500),
     "cr": dict(builds=["implrun"], timeout=1500),
@@ -26,14 +27,55 @@ ENGINES = [
 ]
 
 PROPS = {
-    "C04": dict(
-        prop_files=["PropC04.v"],
-        components=["dec"],
-        level_text="(in progress) block-format specification with proved round trip; decoder models validated by correspondence",
-        level_note="in progress",
-        rule="dec: blocks built from the sequence grammar with the class tables of the property, plus truncations/bit flips, both builds, guard pages and canaries; non-trivial = block with at least one sequence",
+    "C01": dict(
+        prop_files=["PropC01.v"], components=["cmp", "dec"],
+        level_text="Theorems C01_fast (for EVERY stale state of the fast compressor's table), C01_hc (every depth 0..131072, which covers the nine named levels) and C01_hc_any_object: with a destination of at least CompressBlockBound(len) bytes the compressor models succeed with a positive count and BOTH decoder models (assembly and portable), given a buffer of exactly the original length with arbitrary prior contents, return exactly the source. Proved for all byte strings of any length. The models are byte-exact transliterations validated on every run against the real compressors (all entry points, fresh/reused/pooled objects, inputs up to 200 KB) and decoders (both builds).",
+        level_note="Trusted: Coq kernel; translator (constants, blockHash, blockHashHC, CompressBlockBound re-translated and the proofs re-checked on every run); extraction; harness. Modelled, not verified: control flow of block.go / decode_other.go / decode_amd64.s (hand-written Gallina, tied by the correspondence). HC depths above 131072 (not a named level): termination of the chain walk is shown by counting tries only up to that depth; the model then reports CHang and the theorem does not cover it.",
+        rule="cmp: sources of length 0..40 dense, all destination lengths 0..bound+3 for some sources, medium sources, 6 sources of 66-206 KB (16-bit table positions), fast and HC at 15 depths, four entry points with histories; non-trivial = source longer than 14 bytes (a match is possible). dec: see C04.",
+        modelled="block.go compressors (CompressFast.v, CompressHC.v), both decoders (DecodeAsm.v, DecodePortable.v)",
+        strength="full for the models (all sources, all table states, depths <= 131072)",
+        assumptions=["Go int modelled as unbounded Z (lengths below 2^63)", "amd64 assembly modelled under the address-space assumption of DecodeAsm.v"],
     ),
-    "C13": dict(
+    "C03": dict(
+        prop_files=["PropC03.v"], components=["dec"],
+        level_text="Theorems C03_asm / C03_portable: for every source, destination (any length, any prior contents) and dictionary the decoder models return an error or a count 0 <= n <= len(dst) and leave the destination's length unchanged; C03_total_*: they are total and agree with the block-format specification on every input. In the zipper models every read of src/dict and every write of dst is a list access that cannot leave the slice; the accesses the real code would make outside are the explicit error branches, and the wide copies (16/18/48/16 bytes) are performed literally under the guards the code tests. The correspondence compares return code and the WHOLE destination on thousands of grammar-built and mutated blocks per run in both builds, with src/dst/dict ending at PROT_NONE pages (over-reads fault) and with canaries around sub-sliced destinations.",
+        level_note="Partial by nature for the assembly: what the model cannot exhibit is the MMU-level behaviour of the SSE/MOVQ loads and stores; it is observed by the guard-page runs, not proved. Address-space assumption (no pointer wrap) stated in DecodeAsm.v; the nil-destination wrap was finding F2 (repaired).",
+        rule="dec: blocks built from the sequence grammar with the literal/match/offset class tables, destination-size classes (exact, one short, +k, tiny), truncations and bit flips, tail-shortcut classes (wide copies starting within 0..48 bytes of the ends), nil/empty destinations, random sources; both builds; non-trivial = at least one sequence",
+        modelled="decode_amd64.s, decode_other.go as zipper models", strength="model theorems + validated access behaviour",
+        assumptions=["buffers lie in [2^16, 2^63): no pointer arithmetic wraps (amd64 user space)"],
+    ),
+    "C04": dict(
+        prop_files=["PropC04.v"], components=["dec"],
+        level_text="Theorems C04_asm / C04_portable: for every source, destination length and dictionary both decoder models return exactly what the block-format specification defines: the same error/success outcome, the same length, the same bytes (offsets before the output start resolved against the end of the dictionary). Corollaries: well-formed blocks decode to their meaning (C04_wellformed_*), independence of the destination's prior contents (C04_independent_*), and the error clauses: zero offset, offset before the dictionary, output larger than the destination, truncated final literals. The specification (BlockFormat.v) shares nothing with the decoder models and decodes its own encoder's output (C04_spec_roundtrip).",
+        level_note="Trusted: Coq kernel, translator (minMatch), extraction, harness. The decoder models are hand-written and validated against the assembly and the portable decoder on every run (full destination contents).",
+        rule="dec: as C03; every case is additionally decoded by the extracted specification (the independent decoder) and compared with the implementation",
+        modelled="decoders", strength="full for the models",
+    ),
+    "C10": dict(
+        prop_files=["PropC10.v"], components=["cmp"],
+        level_text="Theorems C10_fast / C10_hc: for ANY destination size, a positive result b of the compressor models parses back (parse_block) to a parse p with b = encode p, p well formed and STRICT (every offset in 1..65535 and inside the output produced so far, final literals-only sequence, at least five final literals, last match starting at least 12 bytes before the end), decoding to the source. On every run the extracted strict validator is also applied to the IMPLEMENTATION's blocks.",
+        level_note="As C01.", rule="cmp (see C01); every implementation block is parsed back and checked by the extracted strict validator",
+        modelled="compressors", strength="full for the models (depth <= 131072)",
+    ),
+    "C11": dict(
+        prop_files=["PropC11.v"], components=["cmp"],
+        level_text="Theorems C11_fast / C11_hc (contract): never a panic, never a hang; a positive result is a complete block for the whole source of length <= len(dst); zero/error only when len(dst) < CompressBlockBound(len(src)); C11_bound: |encode p| <= CompressBlockBound(decoded length), with CompressBlockBound translated from the Go function. Writes beyond len(dst) are impossible in the model (the serialiser is bounded by dstlen); on the implementation they are watched with canaries around sub-sliced destinations (cap > len) on every run - this is how finding F3 was reproduced.",
+        level_note="As C01. The HC compressor's reliance on bounds-check panics (recovered) is modelled as the error result.",
+        rule="cmp (see C01): all destination lengths 0..bound+3 for small sources; canaries around dst", modelled="compressors", strength="full for the models",
+    ),
+    "C12": dict(
+        prop_files=["PropC12.v"], components=["dec"],
+        level_text="Theorem C12: for every source, destination length and dictionary the assembly model and the portable model yield the same observation (error, or length and bytes), even from destinations with different prior contents; by transitivity through the specification (C04). The same seeded case stream is run through the default build and the noasm build on every run and both are compared with their models and with the specification.",
+        level_note="As C03/C04.", rule="dec (see C03), both builds", modelled="decoders", strength="full for the models",
+    ),
+    "C19": dict(
+        prop_files=["PropC19.v"], components=["hdr"],
+        level_text="Theorem C19_exact: for EVERY two-byte descriptor, EVERY 8-byte size field (present iff the size bit is set), EVERY checksum byte and EVERY continuation the header parser model accepts iff the checksum byte is right and the block-size code is 4..7, reports a wrong checksum and an undefined block size as distinct errors, and returns flags, content size and remaining input unchanged - an unbounded statement proved by case analysis. C19_badmagic, C19_skippable (exactly the sixteen magics), C19_size. The correspondence enumerates ALL 65536 descriptors on every run (x 4 checksum bytes quick, x 256 thorough = the full 2^25 space) through ValidFrameHeader and through Reader.Read + Size.",
+        level_note="Trusted as C01; bit layouts of the descriptor flags, the size-code table (Index/IsValid) and the magics are re-translated from frame_gen.go / blocks.go / frame.go on every run.",
+        rule="hdr: all 65536 descriptors, size field present iff bit 3, checksum byte correct / off by one bit / two others (quick) or all 256 (thorough); every case non-trivial",
+        modelled="ParseHeaders / initR in Reader.v", strength="full",
+    ),
+     "C13": dict(
         level_text="Theorems C13_oneshot, C13_stream, C13_state (Coq, closed under the global context) state that the one-shot and the streaming checksum models equal reference XXH32 for every byte string, every chunking (empty writes included) and every total length below 2^64. The models are tied to internal/xxh32 on every run: primes, lane seeds and rotations are re-translated from the source and the bridging lemmas re-proved; the control flow is compared differentially (one-shot, streaming, injected states around 2^32/2^64, a real >4 GiB stream).",
         level_note="Trusted: Coq kernel; translator; extraction (ExtrOcamlBasic only); the harness. The hand-written control-flow model (XXH32.v) is validated, not verified. ARM assembly variants are not modelled.",
         prop_files=["PropC13.v"],
